@@ -35,6 +35,16 @@ def fmtPut : PutResult K V → String
   | .update o => s!"Update({o})"
   | .evicted k v => s!"Evicted({k}:{v})"
   | .evictedAndUpdate k v o => s!"EvictedAndUpdate({k}:{v},{o})"
+/-- `P`, `U:<old>`, `E:<k>:<v>`, `X:<k>:<v>:<old>` -/
+def parsePut (t : String) : Option (PutResult K V) :=
+  match t.splitOn ":" with
+  | ["P"] => some .put
+  | ["U", o] => o.toNat?.map .update
+  | ["E", k, v] => match k.toNat?, v.toNat? with | some k, some v => some (.evicted k v) | _, _ => none
+  | ["X", k, v, o] => match k.toNat?, v.toNat?, o.toNat? with
+    | some k, some v, some o => some (.evictedAndUpdate k v o) | _, _, _ => none
+  | _ => none
+
 def fmtOptPut : Option (PutResult K V) → String
   | none => "none"
   | some r => fmtPut r
@@ -126,6 +136,7 @@ inductive St where
   | tiny (t : TinyLfu)
   | sam (s : Sampled)
   | wtsz (w q p : Nat)     -- W-TinyLFU built through a constructor that fixes the key hasher: configuration only
+  | pr                     -- `PutResult` values themselves (`==`, `clone`): stateless
 
 def St.fmt : St → String
   | .raw c => fmtRaw c
@@ -136,6 +147,7 @@ def St.fmt : St → String
   | .tiny t => fmtTiny t
   | .sam s => fmtSampled s
   | .wtsz w q p => s!"W\{cap={w}} P\{cap={p}} Q\{cap={q}}"
+  | .pr => "-"
 
 structure World where
   main : St
@@ -680,6 +692,7 @@ def construct (comp : String) (ps env : List String) : Ctor :=
         | .ok (.ok t), some m => .ok { main := .wt { est := t, window := { cap := w, items := [] }, main := m } }
         | _, none => .err "InvalidSize"
     | _, _, _, _, _ => .bad "wtinylfu params"
+  | "putresult" => .ok { main := .pr }
   | "wtsizes" =>
     match getNat ps "wcap", getNat ps "qcap", getNat ps "pcap", getNat ps "samples" with
     | some w, some q, some p, some samples =>
@@ -735,6 +748,18 @@ def stepSt (w : World) (op : String) (sargs : List String) (implOut : String) : 
   | .wt c => stepWT c w.kh op a
   | .tiny t => stepTiny t w.kh op sargs
   | .sam s => stepSam s op sargs implOut
+  | .pr =>
+    let done (res : String) : Ans := .ok { res := res, st := .pr }
+    match op, sargs with
+    | "preq", [a, b] =>
+      match parsePut a, parsePut b with
+      | some a, some b => done (fmtBool (PutResult.peq (fun x y => x == y) (fun x y => x == y) a b))
+      | _, _ => .bad "preq args"
+    | "prclone", [a] =>
+      match parsePut a with
+      | some a => done (fmtPut (PutResult.pclone id id a))
+      | none => .bad "prclone args"
+    | _, _ => .bad "putresult op"
   | .wtsz wc q p =>
     let done (res : String) : Ans := .ok { res := res, st := .wtsz wc q p }
     match op, sargs with
